@@ -614,6 +614,8 @@ class electrical_signal():
         show
     """
 
+    __array_ufunc__ = None  # `ndarray op signal` and `numpy scalar op signal` must use the reflected operators below, not numpy broadcasting
+
     def __init__(self, signal: str | Iterable, noise: str | Iterable = None, dtype: np.dtype=None) -> None:
         """ Initialize the electrical signal object.
 
